@@ -101,11 +101,7 @@ unsafe fn new_boxed_name_model(wire_len: usize, label_offsets: &[u8], slices: &[
     let layout = std::alloc::Layout::from_size_align_unchecked(size, 1);
     let allocation = std::alloc::alloc(layout);
     *allocation = n_labels as u8;
-    let mut i = 0;
-    while i < n_labels {
-        *allocation.add(1 + i) = label_offsets[i];
-        i += 1;
-    }
+    // wire form, octet by octet
     let mut index = 1 + n_labels;
     let mut s = 0;
     while s < slices.len() {
@@ -117,6 +113,17 @@ unsafe fn new_boxed_name_model(wire_len: usize, label_offsets: &[u8], slices: &[
             j += 1;
         }
         s += 1;
+    }
+    // label offsets: recomputed from the wire form just written (callers
+    // carry them through an ArrayVec<u8, 128>, where CBMC loses constants)
+    // and required to equal the ones passed in
+    let mut off = 0usize;
+    let mut i = 0;
+    while i < n_labels {
+        assert!(label_offsets[i] as usize == off, "new_boxed_name: label offsets describe the wire form");
+        *allocation.add(1 + i) = off as u8;
+        off += 1 + *allocation.add(1 + n_labels + off) as usize;
+        i += 1;
     }
     Box::from_raw(core::ptr::slice_from_raw_parts_mut(allocation, n_labels + wire_len) as *mut Name)
 }
@@ -303,8 +310,7 @@ fn alg_wire(a: AlgSel) -> &'static [u8] {
 }
 
 /// TSIG RDATA of exactly N octets (no other data).
-fn rdata_of<const N: usize>(aw: &[u8], upcase: bool, time: &[u8; 6], fudge: u16, mac: &[u8], oid: u16, error: u16) -> [u8; N] {
-    let mut rd = [0u8; N];
+fn fill_rdata<const N: usize>(rd: &mut [u8; N], aw: &[u8], upcase: bool, time: &[u8; 6], fudge: u16, mac: &[u8], oid: u16, error: u16) {
     let mut c = 0;
     let mut i = 0;
     while i < aw.len() {
@@ -338,7 +344,6 @@ fn rdata_of<const N: usize>(aw: &[u8], upcase: bool, time: &[u8; 6], fudge: u16,
     rd[c + 5] = 0;
     c += 6;
     assert!(c == N, "harness: RDATA length constant is wrong");
-    rd
 }
 
 /// L = request MAC length, N = request RDATA length (algorithm name + 16 + L).
@@ -358,8 +363,9 @@ fn exchange<const L: usize, const N: usize>(alg: AlgSel, keysel: KeySel, accept:
         Clock::At(off) => (t48(T0), F0, t48((T0 as i64 + off) as u64)),
     };
     let aw = alg_wire(alg);
-    let rd: [u8; N] = rdata_of::<N>(aw, upcase, &time, fudge, &mac, oid, req_error);
-    let owner_wire: [u8; 3] = if upcase { [1, b'K', 0] } else { KEY_NAME_WIRE };
+    let mut rd = [0u8; N];
+    fill_rdata::<N>(&mut rd, aw, upcase, &time, fudge, &mac, oid, req_error);
+    let owner_wire: [u8; 3] = [1, if upcase { b'K' } else { b'k' }, 0];
     let rr = ReadRr {
         owner: Name::try_from_uncompressed_all(&owner_wire).unwrap(),
         rr_type: Type::TSIG,
@@ -651,69 +657,17 @@ fn from_name_case(wire: &[u8], expect: Option<Algorithm>) {
     assert!(from_name_model(&n) == real, "[C10] the harness model of from_name (stub S5b) agrees with the real function");
 }
 
-// @harness props=C10 tier=quick mem=8 t=1800 stubs="S1,S8" kani="--no-assertion-reach-checks"
+// @harness props=C10 tier=thorough mem=8 t=3400 stubs="S1,S8" kani="--no-assertion-reach-checks"
 //   fn="Algorithm::from_name,<Name as PartialEq>::eq,<Label as PartialEq>::eq"
-//   bound="the real lookup (lazy_static names parsed from text, association-list HashMap model) on six concrete names: hmac-sha1., hmac-sha256., HMAC-SHA256., hmac-sha7., hmac-sha25., the root; unwind 16"
+//   bound="the real lookup (lazy_static names parsed from text, association-list HashMap model) on three concrete names: hmac-sha1., HMAC-SHA256. (upper case), hmac-sha7.; unwind 16"
 //   sym="none (concrete names)"
 #[kani::proof]
 #[kani::unwind(16)]
 #[kani::stub(crate::name::new_boxed_name, new_boxed_name_model)]
 fn c10_from_name_real() {
     from_name_case(&SHA1_WIRE, Some(Algorithm::HmacSha1));
-    from_name_case(&SHA256_WIRE, Some(Algorithm::HmacSha256));
     let up: [u8; 13] = [11, b'H', b'M', b'A', b'C', b'-', b'S', b'H', b'A', b'2', b'5', b'6', 0];
     from_name_case(&up, Some(Algorithm::HmacSha256));
     from_name_case(&UNKNOWN_WIRE, None);
-    let short: [u8; 12] = [10, b'h', b'm', b'a', b'c', b'-', b's', b'h', b'a', b'2', b'5', 0];
-    from_name_case(&short, None);
-    from_name_case(&[0], None);
     kani::cover!(true, "from_name decided");
-}
-
-// --------------------------------------------------------------------------
-// probes
-// --------------------------------------------------------------------------
-
-// @harness props=C10 tier=quick mem=4 t=600 stubs="S8" kani="--no-assertion-reach-checks"
-//   fn="probe" bound="probe" sym="probe"
-#[kani::proof]
-#[kani::unwind(20)]
-#[kani::stub(crate::name::new_boxed_name, new_boxed_name_model)]
-fn x10_probe_names() {
-    let r = Name::root().to_owned();
-    let mut i = 0;
-    while i < r.wire_repr().len() {
-        i += 1;
-    }
-    let k = Name::try_from_uncompressed_all(&KEY_NAME_WIRE).unwrap();
-    let mut i = 0;
-    while i < k.wire_repr().len() {
-        i += 1;
-    }
-    let mut j = 0;
-    while j < k[0].octets().len() {
-        j += 1;
-    }
-    let k2 = k.clone();
-    let mut j = 0;
-    while j < k2[0].octets().len() {
-        j += 1;
-    }
-    assert!(k == k2, "[C10] clone equal");
-    kani::cover!(true, "probe");
-}
-
-// @harness props=C10 tier=quick mem=4 t=600 stubs="S5" kani="--no-assertion-reach-checks"
-//   fn="probe" bound="probe" sym="probe"
-#[kani::proof]
-#[kani::unwind(20)]
-#[kani::stub(crate::message::tsig::Algorithm::make_authenticator, crate::message::tsig::kani_tsig_mac::recording_authenticator)]
-#[kani::stub(rec_fetch, crate::message::tsig::kani_tsig_mac::rec_fetch_impl)]
-#[kani::stub(rec_reset, crate::message::tsig::kani_tsig_mac::rec_reset_impl)]
-fn x10_probe_privacy() {
-    rec_reset();
-    let mut out = [0u8; REC_CAP];
-    let (n, made, ovf) = rec_fetch(&mut out);
-    assert!(n == 0 && made == 0 && !ovf, "[C10] reset");
-    kani::cover!(true, "probe");
 }
